@@ -99,7 +99,7 @@ def gen_scripts(family, tier, wd, seed, rnd):
     cfg2 = os.path.join(wd, f'Sim_{family}.cfg')
     write_cfg(cfg2, 'MCSpec', consts2, invariants=['EmitScript'], constraint='Bounded')
     walks = tlc_scripts('MC_IggyLog', cfg2, wd, workers=1, timeout=600,
-                        simulate=(60 if tier == 'quick' else 600, consts2['MaxOps'] + 1), seed=seed)
+                        simulate=(60 if tier == 'quick' else 400, consts2['MaxOps'] + 1), seed=seed)
     return paths, walks
 
 
@@ -172,13 +172,13 @@ def build_scenarios(families, tier, wd, seed):
     for fam in families:
         paths, walks = gen_scripts(fam, tier, wd, seed, rnd)
         cfgs = cfgs_for(fam, tier)
-        budget = {'quick': 150, 'thorough': 4000}[tier]
+        budget = {'quick': 150, 'thorough': 1500}[tier]   # scripts per family (sampled from the path cover), each under `per` configurations
         if fam == 'grpoffsets':
             budget = max(budget, 700)
         if len(paths) > budget:
             paths = rnd.sample(paths, budget)
         gen_stats[fam] = dict(path_cover_scripts=len(paths), simulated_walks=len(walks), configs=len(cfgs))
-        per = 2 if tier == 'quick' else 4
+        per = 2 if tier == 'quick' else 3
         for s in paths + walks:
             if fam == 'layout_enc' and rnd.random() < 0.35 and any(o['op'] == 'append' for o in s):
                 s = s + [dict(op='restart', mode='graceful', key='B')]
